@@ -1,5 +1,6 @@
 import LekkerVerif.Properties.C05
 import LekkerVerif.Proofs.Compose
+import LekkerVerif.Proofs.HierParams
 
 /-! # C05 (continued) — defaults registered at placement come back to the component they belong to
 
@@ -153,3 +154,14 @@ theorem C05_defaults_roundtrip {V : Type} (m : Table) (hold : (m.map (·.2)).Nod
 /-- non-vacuity: a swap of two parameters of a three-parameter component -/
 example : (renameFixed [("A", "B"), ("B", "A")] (registerDefaults [("A", "B"), ("B", "A")] ⟨[]⟩ (⟨[("A", 1), ("B", 2), ("C", 3)]⟩ : Dict Nat))).kv
     = [("C", 3), ("B", 2), ("A", 1)] := by decide
+
+/-- **the end-to-end model routes parameters by the any-depth rule**: in the composed model of `Solver.solve(**kw)` on a hierarchy
+(`PNet.psolve`, the function the driver runs for `phsolve` and that is compared with the code on every parametric hierarchy), the
+dictionary that reaches the object at the end of any path of placements, resolved there against that object's defaults, is
+`descend` - the function `C05_precedence_any_depth` characterises - of the root's resolved dictionary along the rename tables
+and registered defaults of the path -/
+theorem C05_composed_model_routes_by_descend {F : Type} (path : List Nat) (t : PNet F) (kw e : Dict F)
+    (h : PNet.dictAt kw t path = some e) :
+    ∃ levels o, PNet.pathLevels t path = some (levels, o) ∧
+      PNet.resolve o e = descend (PNet.resolve t kw) levels :=
+  PNet.dictAt_descend path t kw e h
